@@ -73,7 +73,6 @@ std::string err_class_mds(const std::string& m)
 {
 	struct { const char* pat; const char* cls; } tab[] = {
 		{"does not fit in a byte", "indexRange"}, {"sequence data too large", "seqTooLarge"},
-		{"without a loop start", "loopCmdWithoutStart"}, {"note out of range", "noteRange"}, {"drum mode routine is inside", "drumNoteInLoop"}, {"Drum mode subroutine", "drumMissing"}, {"MDSDRV: Subroutine", "subMissing"},
 		{"sequence header too large", "headerTooLarge"}, {"without a loop start", "loopCmd"},
 		{"note out of range", "noteRange"}, {"drum mode routine is inside", "drumNoteInLoop"}, {"Drum mode subroutine", "drumMissing"}, {"MDSDRV: Subroutine", "subMissing"},
 		{"MDSDRV: Platform command", "platformMissing"}, {"not enough parameters", "platformBad"}, {"argument must be", "platformBad"}, {"empty platform command", "platformBad"},
